@@ -240,7 +240,8 @@ def make_store():
     apps = ["a0", "a1", "a0", "a2", "a1", "a0"]
     for i, app in enumerate(apps):
         ds["win"].insert(Event(timestamp=T0 + timedelta(minutes=10 * i), duration=timedelta(minutes=7),
-                               data={"app": app, "title": f"t{i % 2} - x", "url": f"http://h{i % 2}.org/p"}))
+                               data={"app": ("(2) " if i == 3 else "") + app, "title": ("(7) " if i % 3 == 0 else "") + f"t{i % 2} - x",
+                                     "url": f"http://h{i % 2}.org/p"}))
     for i, st in enumerate(["not-afk", "afk", "not-afk"]):
         ds["afk"].insert(Event(timestamp=T0 + timedelta(minutes=20 * i), duration=timedelta(minutes=15),
                                data={"status": st}))
